@@ -5,7 +5,7 @@ from __future__ import annotations
 import ast
 import re
 
-from ..absdom import PregexHooks, make_operand, parse_regex, witnesses, check_type_enum, infer_empty_rule
+from ..absdom import PregexHooks, make_operand, parse_regex, witnesses, check_type_enum, infer_empty_rule, pattern_of
 from ..interp import FuncRef, Incomplete, Interp, Obj, PyRaise, explore
 from ..model import AnalysisError, Model, norm_text
 
@@ -102,7 +102,7 @@ class Out:
         self.is_self = False
         self.is_arg = None
         if isinstance(self.value, Obj):
-            self.text = self.value.fields.get("_Pregex__pattern")
+            self.text = pattern_of(self.value)
             self.is_self = recv is not None and self.value is recv
             for i, a in enumerate(args):
                 if self.value is a:
